@@ -101,6 +101,17 @@ pub fn child(args: &[String]) -> i32 {
                         // growing the leaf file / writing leaves beyond its current end fails (pre-meta)
                         "ln-end" => size("ln").max(4096),
                         "bbn-end" => size("bbn").max(4096),
+                        // the limit falls INSIDE a page: the write of that page returns a short count (no errno) every time it is issued
+                        // (the first page the sync allocates beyond the frontier, read off the manifest: bytes 12..16 = ln_bump, 20..24 = bbn_bump)
+                        "ln-bump-odd" | "ln-bump1-odd" | "bbn-bump-odd" => {
+                            let meta = std::fs::read(format!("{dir}/meta")).unwrap_or_default();
+                            let word = |o: usize| meta.get(o..o + 4).map(|b| u32::from_le_bytes(b.try_into().unwrap()) as u64).unwrap_or(1);
+                            match which.as_str() {
+                                "ln-bump-odd" => word(12) * 4096 + 1000,
+                                "ln-bump1-odd" => (word(12) + 1) * 4096 + 1000,
+                                _ => word(20) * 4096 + 1000,
+                            }
+                        }
                         // nearly everything fails, the WAL write included
                         _ => 8192,
                     };
@@ -448,7 +459,7 @@ pub fn run(args: &[String], out: &mut Sink) {
                         v
                     }
                     // at event 0 additionally: the whole operation under an OS file-size limit (real EFBIG errors out of the kernel)
-                    "fault" if k == 0 => vec!["once".into(), "persistent".into(), "rlimit:ht-half".into(), "rlimit:ht-3q".into(), "rlimit:ln-end".into(), "rlimit:bbn-end".into(), "rlimit:tiny".into()],
+                    "fault" if k == 0 => vec!["once".into(), "persistent".into(), "rlimit:ht-half".into(), "rlimit:ht-3q".into(), "rlimit:ln-end".into(), "rlimit:bbn-end".into(), "rlimit:tiny".into(), "rlimit:ln-bump-odd".into(), "rlimit:ln-bump1-odd".into(), "rlimit:bbn-bump-odd".into()],
                     "fault" => vec!["once".into(), "persistent".into()],
                     _ => vec!["none".into()],
                 };
